@@ -11,16 +11,22 @@ package main
 
 import (
 	"bufio"
+	"bytes"
 	"crypto/sha256"
 	"encoding/hex"
 	"encoding/json"
 	"fmt"
+	"io"
 	"math/rand"
 	"os"
+	"os/exec"
 	"path/filepath"
+	"runtime/debug"
 	"sort"
 	"strconv"
 	"strings"
+	"sync"
+	"syscall"
 
 	"github.com/mk6i/mkdb/storage"
 )
@@ -81,6 +87,7 @@ type result struct {
 	Events int                    `json:"events,omitempty"`
 	Shapes map[string]int         `json:"shapes,omitempty"`
 	Dump   map[string]interface{} `json:"dump,omitempty"`
+	Died   string                 `json:"died,omitempty"` // the executor process died on this request (see supervise)
 }
 
 func u64(x uint64) string { return strconv.FormatUint(x, 10) }
@@ -635,7 +642,119 @@ func probe() result {
 	return res
 }
 
+// memCap bounds the address space of the executor process. A page damaged by
+// a defect can carry a garbage length field, and the real decodeLeaf then
+// allocates up to 4 GiB per cell; twelve workers doing that starve the
+// machine. Under the cap such an allocation kills the executor instead; the
+// supervisor reports that for the request and starts a new executor.
+const memCap = 1 << 30
+
+type lockedBuf struct {
+	mu sync.Mutex
+	b  []byte
+}
+
+func (l *lockedBuf) Write(p []byte) (int, error) {
+	l.mu.Lock()
+	defer l.mu.Unlock()
+	l.b = append(l.b, p...)
+	if len(l.b) > 1<<16 {
+		l.b = l.b[len(l.b)-1<<15:]
+	}
+	return len(p), nil
+}
+
+func (l *lockedBuf) head() string {
+	l.mu.Lock()
+	defer l.mu.Unlock()
+	t := string(l.b)
+	if j := strings.Index(t, "\n\n"); j >= 0 { // a Go fatal error: the message comes first, then the stacks
+		t = t[:j]
+	}
+	if len(t) > 400 {
+		t = t[:400]
+	}
+	return strings.TrimSpace(t)
+}
+
+// supervise forwards each request line to an executor child (this binary
+// with VERIF_CODEC_EXEC=1, address space capped) and passes its answer on.
+func supervise() {
+	in := bufio.NewReaderSize(os.Stdin, 1<<20)
+	out := bufio.NewWriter(os.Stdout)
+	var cmd *exec.Cmd
+	var cin io.WriteCloser
+	var cout *bufio.Reader
+	var cerr *lockedBuf
+	start := func() error {
+		// the cap must be in place when the Go runtime of the executor starts (it sizes its reservations by it)
+		cmd = exec.Command("/bin/sh", "-c", fmt.Sprintf("ulimit -v %d; exec \"$0\"", memCap>>10), os.Args[0])
+		cmd.Env = append(os.Environ(), "VERIF_CODEC_EXEC=1")
+		cerr = &lockedBuf{}
+		cmd.Stderr = io.MultiWriter(os.Stderr, cerr)
+		var err error
+		if cin, err = cmd.StdinPipe(); err != nil {
+			return err
+		}
+		so, err := cmd.StdoutPipe()
+		if err != nil {
+			return err
+		}
+		cout = bufio.NewReaderSize(so, 1<<20)
+		return cmd.Start()
+	}
+	for {
+		line, err := in.ReadBytes('\n')
+		if len(line) > 1 {
+			var ans []byte
+			if cmd == nil {
+				if e := start(); e != nil {
+					ans, _ = json.Marshal(result{Err: "cannot start executor: " + e.Error()})
+				}
+			}
+			if ans == nil {
+				if line[len(line)-1] != '\n' {
+					line = append(line, '\n')
+				}
+				_, werr := cin.Write(line)
+				var rerr error
+				if werr == nil {
+					ans, rerr = cout.ReadBytes('\n')
+				}
+				if werr != nil || rerr != nil || len(ans) < 2 {
+					cin.Close()
+					werr2 := cmd.Wait()
+					ans, _ = json.Marshal(result{OK: true, Died: fmt.Sprintf("%v: %s", werr2, cerr.head())})
+					cmd = nil
+				}
+			}
+			out.Write(bytes.TrimRight(ans, "\n"))
+			out.WriteByte('\n')
+		}
+		if in.Buffered() == 0 || err != nil {
+			out.Flush()
+		}
+		if err != nil {
+			break
+		}
+	}
+	if cmd != nil {
+		cin.Close()
+		cmd.Wait()
+	}
+}
+
 func main() {
+	if os.Getenv("VERIF_CODEC_EXEC") != "1" {
+		supervise()
+		return
+	}
+	var lim syscall.Rlimit
+	if err := syscall.Getrlimit(syscall.RLIMIT_AS, &lim); err != nil || lim.Cur > memCap {
+		fmt.Fprintln(os.Stderr, "executor started without the address-space cap:", err, lim.Cur)
+		os.Exit(3)
+	}
+	debug.SetMemoryLimit(memCap / 4)
 	in := bufio.NewReaderSize(os.Stdin, 1<<20)
 	out := bufio.NewWriter(os.Stdout)
 	for {
